@@ -58,6 +58,7 @@ type Machine struct {
 	fmtMemo    map[string]value
 	trace      bool
 	initDirect *ssa.Function
+	fpMemo     map[fpKey]*Term
 }
 
 type deferred struct {
